@@ -451,7 +451,14 @@ pub fn gen_scenario(run_seed: u64, pool: &Pool) -> Scenario {
             continue;
         }
         let parser = tr.below(np);
-        let kind = match tr.below(6) {
+        // where do the twins differ? aim the operation at the part of the result that differs
+        let diff_in_meta = {
+            let (x, y) = (inputs[a].as_bytes(), inputs[b].as_bytes());
+            let i = (0..x.len().min(y.len())).find(|&i| x[i] != y[i]).unwrap_or(0);
+            let line_start = inputs[a][..i.min(inputs[a].len())].rfind('\n').map(|p| p + 1).unwrap_or(0);
+            inputs[a][line_start..].starts_with(">>") || inputs[a].starts_with("---")
+        };
+        let kind = match if diff_in_meta { tr.below(3) + 1 } else { tr.below(6) } {
             0 | 1 => OpKind::Parse { via: Via::Direct, cb: None, truncate: None },
             2 => OpKind::Metadata { via: Via::Direct, cb: None },
             3 => OpKind::Parse { via: Via::Adapter, cb: None, truncate: None },
